@@ -33,7 +33,58 @@ def main():
         from . import replay as rp
         return rp.run(prop, replay)
     mod = importlib.import_module(f"checks.{prop.lower()}")
-    return mod.main(tier)
+    code = mod.main(tier)
+    if tier == "thorough" and prop in HASH_SEED_PROPS and not os.environ.get("VERIF_NO_HASHSEED") and code == 0:
+        code = _other_hash_seeds(prop, code)
+    return code
+
+
+# The library keeps literals, effects and facts in sets whose iteration order follows Python's per-process string hashing.
+# For these properties the thorough tier repeats the whole check in fresh interpreters under fixed other hash seeds (the
+# first run uses whatever seed the interpreter was started with); the runs are listed in the evidence.
+HASH_SEED_PROPS = ("C01", "C04", "C05", "C08", "C09", "C10", "C14", "C15", "C16", "C17", "C18")
+HASH_SEEDS = ("1", "20260927")
+
+
+def _other_hash_seeds(prop, code):
+    import subprocess
+    import tempfile
+    import time
+    from . import runner
+    runs = []
+    for hs in HASH_SEEDS:
+        with tempfile.TemporaryDirectory(prefix="verif_hs_") as ev:
+            env = dict(os.environ, PYTHONHASHSEED=hs, VERIF_NO_HASHSEED="1", VERIF_EVIDENCE_DIR=ev,
+                       VERIF_REPLAY_DIR=os.path.join(runner.REPLAY_DIR, f"hashseed{hs}"))
+            t0 = time.time()
+            r = subprocess.run([sys.executable, "-B", "-m", "checks.main", prop, "--tier", "thorough"], env=env,
+                               cwd=runner.VERIF, capture_output=True, text=True)
+            # pass the child's verdict lines through (VIOLATION / KNOWN-FINDING are re-printed; its summary line is labelled)
+            for line in r.stdout.splitlines():
+                if line.startswith("VIOLATION") or line.startswith("  "):
+                    print(line)
+                elif line.startswith(prop + " ["):
+                    print(f"[PYTHONHASHSEED={hs}] {line}")
+            if r.returncode not in (0, 1):
+                sys.stderr.write(r.stderr[-2000:])
+            sub = {}
+            try:
+                sub = json.load(open(os.path.join(ev, f"{prop}.json")))
+            except Exception:  # noqa
+                pass
+            runs.append({"PYTHONHASHSEED": hs, "exit": r.returncode, "wall_s": round(time.time() - t0, 2),
+                         "outcomes": (sub.get("coverage") or {}).get("outcomes"), "violations": sub.get("violations")})
+            code = max(code, r.returncode)
+    path = os.path.join(runner.EVIDENCE_DIR, f"{prop}.json")
+    try:
+        ev = json.load(open(path))
+        ev["coverage"]["other_hash_seed_runs"] = runs
+        ev["wall_s"] = round(ev.get("wall_s", 0) + sum(x["wall_s"] for x in runs), 2)
+        json.dump(ev, open(path, "w"), indent=1, default=str)
+    except Exception as e:  # noqa
+        print(f"HARNESS-ERROR could not record the hash-seed runs: {e}", file=sys.stderr)
+        code = max(code, 2)
+    return code
 
 
 if __name__ == "__main__":
